@@ -18,7 +18,7 @@ import (
 // ("!type" consumed in the shared loop rather than in the callbacks of the
 // oneof and Any decoders) is a key no map can hold.
 func mapKeysNotInterpreted(r *core.Run) {
-	r.Rule("R-SYM/memberloop", "for every call, in a codec function that takes a j5reflect.MapField, of a function with a func(string) error parameter: in that function and in those it forwards the callback to, the string that is passed to the callback is not compared with a string constant (==, !=, switch case)")
+	r.Rule("R-SYM/memberloop", "for every call, in a codec function that takes a j5reflect.MapField (or a type that is one), of a function with a func(string) error parameter: in that function and in those it forwards the callback to, the string that is passed to the callback is not compared with a string constant (==, !=, switch case)")
 	pk := r.P.Pkg(codecRel)
 	if pk == nil {
 		r.Fatal("anchor: package %s not found", codecRel)
@@ -110,20 +110,104 @@ func mapKeysNotInterpreted(r *core.Run) {
 		}
 		return nil, nil
 	}
+	// the map field interface: a parameter of any type that is a MapField (MapOfObjectField, …) counts
+	var mapField types.Type
+	if rp := r.P.Pkg("lib/j5reflect"); rp != nil {
+		if o := rp.Types.Scope().Lookup("MapField"); o != nil {
+			if _, isIface := o.Type().Underlying().(*types.Interface); isIface {
+				mapField = o.Type()
+			}
+		}
+	}
+	if mapField == nil {
+		r.Fatal("anchor: interface j5reflect.MapField not found")
+		return
+	}
 	n := 0
+	// mapHandlers: the functions that take a MapField, and those the map (narrowed by a type switch or
+	// not) is handed on to
+	handlers := map[*ast.FuncDecl]bool{}
+	var order []*ast.FuncDecl
+	var addHandler func(fd *ast.FuncDecl, objs map[types.Object]bool, depth int)
+	addHandler = func(fd *ast.FuncDecl, objs map[types.Object]bool, depth int) {
+		if fd == nil || fd.Body == nil || handlers[fd] || depth > 3 {
+			return
+		}
+		handlers[fd] = true
+		order = append(order, fd)
+		// the type-switch bindings of the map parameter
+		ast.Inspect(fd.Body, func(nd ast.Node) bool {
+			ts, ok := nd.(*ast.TypeSwitchStmt)
+			if !ok {
+				return true
+			}
+			var x ast.Expr
+			switch a := ts.Assign.(type) {
+			case *ast.AssignStmt:
+				if ta, ok := a.Rhs[0].(*ast.TypeAssertExpr); ok {
+					x = ta.X
+				}
+			case *ast.ExprStmt:
+				if ta, ok := a.X.(*ast.TypeAssertExpr); ok {
+					x = ta.X
+				}
+			}
+			if id, ok := core.Unparen(x).(*ast.Ident); ok && objs[info.ObjectOf(id)] {
+				for _, cl := range ts.Body.List {
+					if o := info.Implicits[cl]; o != nil {
+						objs[o] = true
+					}
+				}
+			}
+			return true
+		})
+		ast.Inspect(fd.Body, func(nd ast.Node) bool {
+			c, ok := nd.(*ast.CallExpr)
+			if !ok {
+				return true
+			}
+			f := core.CalleeFunc(info, c)
+			if f == nil || f.Pkg() != pk.Types {
+				return true
+			}
+			for i, a := range c.Args {
+				if id, ok := core.Unparen(a).(*ast.Ident); ok && objs[info.ObjectOf(id)] {
+					if d := core.DeclOf(pk, f); d != nil {
+						k := 0
+						sub := map[types.Object]bool{}
+						for _, fl := range d.Type.Params.List {
+							for _, nm := range fl.Names {
+								if k == i {
+									sub[info.ObjectOf(nm)] = true
+								}
+								k++
+							}
+						}
+						addHandler(d, sub, depth+1)
+					}
+				}
+			}
+			return true
+		})
+	}
 	core.AllFuncDecls(pk, func(fd *ast.FuncDecl) {
 		if fd.Body == nil {
 			return
 		}
-		takesMap := false
+		objs := map[types.Object]bool{}
 		for _, f := range fd.Type.Params.List {
-			if strings.HasSuffix(core.TypeStr(info.TypeOf(f.Type)), "j5reflect.MapField") {
-				takesMap = true
+			t := info.TypeOf(f.Type)
+			if strings.HasSuffix(core.TypeStr(t), "j5reflect.MapField") || t != nil && types.AssignableTo(t, mapField) {
+				for _, nm := range f.Names {
+					objs[info.ObjectOf(nm)] = true
+				}
 			}
 		}
-		if !takesMap {
-			return
+		if len(objs) > 0 {
+			addHandler(fd, objs, 0)
 		}
+	})
+	for _, fd := range order {
 		loops := map[string]*ast.FuncDecl{}
 		ast.Inspect(fd.Body, func(nd ast.Node) bool {
 			c, ok := nd.(*ast.CallExpr)
@@ -154,7 +238,7 @@ func mapKeysNotInterpreted(r *core.Run) {
 				o.Auto("%s passes every key to the callback and decides nothing by it", name)
 			}
 		}
-	})
+	}
 	if n == 0 {
 		r.Fatal("R-SYM/memberloop: no function of %s takes a j5reflect.MapField and reads its members through a callback loop", codecRel)
 	}
